@@ -1,6 +1,6 @@
 (* C20 — EntryList.Equal decides multiset equality of entries.
    Only statements, [exact], Print Assumptions and non-vacuity examples live here. *)
-From FF Require Import model.Bytes model.EntryEqual proofs.EntryEqual_Proofs.
+From FF Require Import model.Bytes model.EntryEqual model.Run proofs.EntryEqual_Proofs proofs.Multiset_Proofs.
 From Coq Require Import SetoidList SetoidPermutation RelationClasses.
 
 (* Full statement: for every entry type and every entry equality that is an
@@ -29,6 +29,14 @@ Theorem C20_order_irrelevant :
   forall l1 l1' l2 : list E, PermutationA (R eeq) l1 l1' -> equal eeq l1 l2 = equal eeq l1' l2.
 Proof. exact (@equal_order_irrelevant). Qed.
 Print Assumptions C20_order_irrelevant.
+
+(* The executable judge applied to the real code's answers (Run.multiset_eqb, counting)
+   decides the same relation, so a judged disagreement is a violation of the property. *)
+Theorem C20_judge_sound :
+  forall l1 l2 : list centry, length l1 = length l2 ->
+  (multiset_eqb l1 l2 = true <-> PermutationA (R centry_eqb) l1 l2).
+Proof. exact multiset_eqb_iff_perm. Qed.
+Print Assumptions C20_judge_sound.
 
 (* Regression witness: the algorithm of the pinned commit is refuted. *)
 Theorem C20_refuted_pinned :
